@@ -3,28 +3,40 @@ from lib.props.meta_common import ASSUME_COMMON
 ID = "C12"
 META = dict(
     LEVEL="exploration",
-    RULE=("random struct-codec schemas (depth <= 3, 0-6 properties per object, arrays of scalars/objects/arrays with "
-          "every length prefix B/H/I/L/Q, fixed `length`, exhaust-buffer arrays, every numeric/bool/char/Ns/Np/pad "
-          "format, stringEncoding, nullTerminated, explicit/tied/missing/mixed `index`, defaults at every level, "
-          "explicit or implied `required`, object|null top level) and JSON-codec schemas (typed properties, "
-          "top-level defaults, required, additionalProperties, permissive) x 4-6 conforming objects with boundary "
-          "values x non-conforming mutations x meta-schema-violating schemas; each schema is also attached to one of "
-          "the seven table classes / top-level / reference-sequence metadata and driven through add_row, append, "
-          "row assignment, packset_metadata, tree_sequence() accessors and the numpy structured view.  Real bytes "
-          "and decoded objects are compared with a reference codec written from docs/metadata.md.  A case is "
-          "distinct by the canonical JSON of (schema, objects) and non-trivial when the schema was accepted and has "
-          "at least one property."),
+    RULE=("random struct-codec schemas (depth <= 3, occasionally 5; 0-6 properties per object, arrays of "
+          "scalars/objects/arrays with every length prefix B/H/I/L/Q, fixed `length`, exhaust-buffer arrays (top level or "
+          "last member of the last nested object), every numeric/bool/char/Ns/Np/pad format incl. counts with leading "
+          "zeros, stringEncoding, nullTerminated, explicit/tied/missing/mixed `index`, defaults at every level, "
+          "explicit or implied `required`, object|null top level, JSON-Schema validation keywords minimum/maximum/"
+          "enum/maxLength/minItems/maxItems; forced in a fixed share of schemas: a one-byte-prefix array at capacity "
+          "255/256 and a string field > 64 KiB) and JSON-codec schemas (typed properties, top-level defaults incl. "
+          "mutable ones, required, additionalProperties, object|null top level, permissive + annotation-only, "
+          "property-less schemas constrained by 15 other keywords) x 4-6 conforming objects with boundary values x "
+          "non-conforming mutations (rare classes forced whenever the schema allows them) x meta-schema-violating "
+          "schemas; each schema is also attached to one of the seven table classes / top-level / reference-sequence "
+          "metadata and driven through add_row, append, row assignment (own rows, rows of another schema, rows handed "
+          "out by a TreeSequence), packset_metadata, metadata_vector (name, list of names, default_value), derived "
+          "tables (copy, slices, index arrays, masks, pickle), tree_sequence() accessors incl. edge_diffs in both "
+          "directions and split_edges/decapitate(metadata=...), and the numpy structured view (bytes, int8 array, "
+          "bytearray, memoryview, empty).  Two small families cover the null schema (raw bytes) in all its three "
+          "spellings and arrays at the capacity of a one/two-byte length prefix.  Real bytes and decoded objects are "
+          "compared with a reference codec written from docs/metadata.md.  A case is distinct by the canonical JSON "
+          "of (schema, objects) and non-trivial when the schema was accepted and has at least one property."),
     REQUIRED=["struct/roundtrip", "struct/layout", "struct/string-form", "struct/numpy-view",
               "struct/nonconforming-rejected", "table/add_row-roundtrip", "table/nonconforming-rejected",
-              "schema/invalid-rejected", "json/roundtrip", "json/nonconforming-rejected"],
+              "schema/invalid-rejected", "json/roundtrip", "json/nonconforming-rejected",
+              "schema/handed-out-dict-isolated", "json/default-not-aliased", "table/ts-row-assign",
+              "table/derived-table", "null-schema/roundtrip"],
     ASSUMPTIONS=ASSUME_COMMON + [
         "the reference struct codec (lib/props/c12.py, written from docs/metadata.md) states the documented layout",
         "a property without `index` sorts as if it had some fixed index among {0, -inf, +inf} (docs are silent on "
         "mixing indexed and unindexed properties; all three readings are accepted)",
         "property names are compared by code point (generated names make that equal to alphabetical order except "
         "where all indexes are explicit and distinct)",
-        "stringEncoding is restricted to utf-8/ascii/latin-1 (+ utf-16-le for Pascal strings), where 'first null' "
-        "means the same for bytes and characters",
+        "stringEncoding is restricted to utf-8/ascii/latin-1 and the utf-16/utf-32 family, where 'first null' is read "
+        "as the first null character of the decoded text",
+        "JSON-Schema validation itself (jsonschema package) is trusted; the check only establishes that tskit consults "
+        "it on every insertion path",
     ],
     BUDGET={"quick": 50.0, "thorough": 840.0},
     CASE_TIMEOUT={"quick": 90, "thorough": 300},
